@@ -243,10 +243,16 @@ def gen_mh(rng):
     lines = []
     for _ in range(rng.randint(3, 6)):
         kind = rng.choice(["cont", "max", "avg", "jac"])
-        scaled = rng.choice([1, 1, 2, 10, 1000])
+        scaled = rng.choice([1, 1, 2, 10, 100, 1000])
         k = rng.choice([7, 21, 31, 51, rng.randint(1, 120)])
         la = rng.choice([1, 2, 5, rng.randint(1, 50), rng.randint(50, 400), rng.randint(400, 3000)])
         lb = rng.choice([la, 1, rng.randint(1, 50), rng.randint(50, 400), rng.randint(400, 3000)])
+        if scaled > 1 and rng.random() < 0.4:
+            # both sizes around the point where size_is_accurate() flips (it is NOT monotone there: at
+            # scaled=10 85..88 hashes pass, 89 fails, 90+ pass), so that every combination of the two
+            # answers occurs with either sketch the larger one (seeded C17a tested only the smaller sketch)
+            thr = {2: 47, 10: 88, 100: 92, 1000: 95}[scaled]
+            la, lb = rng.randint(thr - 8, thr + 8), rng.randint(thr - 8, thr + 8)
         r = rng.random()
         if r < 0.2:
             common_ = 0
